@@ -345,7 +345,7 @@ def write_evidence(res, violations, tool_error=False):
 # ---------------------------------------------------------------------------------------------
 # generic replay of TLC output through one harness binary in several configurations
 # ---------------------------------------------------------------------------------------------
-def replay_bin(res, binname, cases, cfgs, expect_ops=None, env_extra=None, tag=None, jobs=8):
+def replay_bin(res, binname, cases, cfgs, expect_ops=None, env_extra=None, tag=None, jobs=8, sanitizer_prop=None):
     build_all(cfgs, [binname])
     tag = tag or binname
     os.makedirs(os.path.join(WORK, res.prop), exist_ok=True)
@@ -355,6 +355,15 @@ def replay_bin(res, binname, cases, cfgs, expect_ops=None, env_extra=None, tag=N
         if os.path.exists(out):
             os.remove(out)
         p = run_bin(cfg, binname, [cases, out], env_extra=env_extra)
+        if sanitizer_prop and p.returncode != 0 and "AddressSanitizer" in (p.stderr or ""):
+            # a sanitizer report is an abnormal exit: it is the violation
+            rp = os.path.join(WORK, res.prop, f"{tag}.{cfg}.asan.txt")
+            open(rp, "w").write(p.stderr[-20000:])
+            json.dump({"cfg": cfg, "cases": 0, "evals": 0, "mismatch_count": 1, "spec_error_count": 0, "spec_errors": [],
+                       "samples": [], "per_op": {}, "nontrivial": 0,
+                       "mismatches": [{"prop": sanitizer_prop, "cfg": cfg, "ty": "?", "op": "AddressSanitizer report", "what": p.stderr[-1500:],
+                                       "case": {"fam": "asan", "report": rp}}]}, open(out, "w"))
+            return cfg, out
         if p.returncode != 0 or not os.path.exists(out):
             raise ToolError(f"{binname} replay crashed in {cfg}: rc={p.returncode}\n{p.stdout[-1500:]}\n{p.stderr[-3000:]}")
         log("  " + p.stdout.strip().splitlines()[-1])
@@ -364,11 +373,11 @@ def replay_bin(res, binname, cases, cfgs, expect_ops=None, env_extra=None, tag=N
         outs = list(ex.map(one, cfgs))
     for cfg, out in outs:
         r = res.add_report(out, cfg)
-        if expect_ops:
+        if expect_ops and not (sanitizer_prop and r["cases"] == 0 and r["mismatch_count"]):
             missing = [k for k in expect_ops if r["per_op"].get(k, 0) == 0]
             if missing:
                 raise ToolError(f"vacuity guard: operations never exercised in {cfg}: {missing[:20]}")
-        if r["cases"] == 0:
+        if r["cases"] == 0 and not r["mismatch_count"]:
             raise ToolError(f"vacuity guard: no case replayed in {cfg}")
 
 
